@@ -4,6 +4,7 @@
 # /repo and /verif inside a private mount namespace, so the real trees are never touched and lanes run in parallel.
 # usage: rerun_seeded.sh [-j lanes] [-t tier] [id ...]        (default: all ids, 4 lanes, quick)
 #        PROPS="C01 C02" rerun_seeded.sh ...                  (run these checks instead of the target's)
+#        SLOW_ONLY_FOR_TARGET="C16 C17 C18" ...                (of PROPS, run these only against changes written for them)
 # result: /verif/seeded/.rerun.tsv  (id, target property, check, exit code, first line after VIOLATION)
 set -u
 LANES=4; TIER=quick
@@ -11,7 +12,7 @@ while getopts "j:t:" o; do case $o in j) LANES=$OPTARG;; t) TIER=$OPTARG;; esac;
 shift $((OPTIND-1))
 cd /verif/seeded
 IDS=("$@"); [ ${#IDS[@]} -eq 0 ] && IDS=($(ls -d */ | tr -d / | sort))
-OUT=/verif/seeded/.rerun.tsv; : > $OUT
+OUT=/verif/seeded/.rerun.tsv; [ -n "${APPEND:-}" ] || : > $OUT
 lane() {
   L=$1; shift
   S=/tmp/rs-$L; rm -rf $S; mkdir -p $S
@@ -24,6 +25,8 @@ lane() {
       prop=\$(jq -r .breaks_property seeded/\$id/meta.json)
       git -C /repo apply /verif/seeded/\$id/patch.diff || { echo \"\$id	\$prop	-	apply-failed	\"; continue; }
       for p in \${PROPS:-\$prop}; do
+        # SLOW_ONLY_FOR_TARGET: checks that need three builds each are run only against changes written for them
+        case \" \${SLOW_ONLY_FOR_TARGET:-} \" in *\" \$p \"*) [ \$p = \$prop ] || { [ \$p = C16 ] && [ \$prop = C14 ]; } || continue;; esac
         o=\$(./check \$p $TIER 2>&1); rc=\$?
         first=\$(echo \"\$o\" | grep -A1 '^VIOLATION' | sed -n 2p | cut -c1-200)
         echo \"\$id	\$prop	\$p	\$rc	\$first\"
